@@ -361,7 +361,12 @@ impl<'a> ListStylist<'a> {
                     let is_last = i + 1 == item_count;
                     match item {
                         Item::Comment(cmt) => {
-                            inner += if is_last && sty.tight_delim {
+                            inner += if seen_real_items > 0
+                                && seen_real_items == self.real_item_count
+                            {
+                                // Behind the last item the blank goes in front, as for an attached comment.
+                                arena.space() + cmt
+                            } else if is_last && sty.tight_delim {
                                 cmt
                             } else {
                                 cmt + arena.space()
